@@ -106,6 +106,11 @@ class Run(object):
     def step(self, e):
         a = e["a"]
         try:
+            if a == "Shutdown":
+                # the application's reactor stops: its "before shutdown" triggers run (MemoryReactor only records them)
+                for fn, args, kw in list(self.reactor.triggers.get("before", {}).get("shutdown", [])):
+                    fn(*args, **kw)
+                return self.obs()
             if a == "Stdout":
                 if e["marker"]:
                     self.pp.outReceived(b"Oct 03 12:00:00.000 [notice] Opening Control listener on /tmp/x/control.socket\n")
